@@ -33,7 +33,7 @@ theorem C03_refuse (c : Conn) (sid : Int) (st : Stream) (data : Bytes) (es : Boo
     wp (sendData sid data es pad) (fun _ _ => False)
       (fun e c' => c' = c ∧ e.isInstance .FlowControlError = true) c := by
   have hs : hasStream c sid = true := by rw [hasStream_lookup, h]; rfl
-  simp only [sendData, localFlowControlWindow]
+  simp only [sendData, sendDataCore, localFlowControlWindow]
   rcases pad with _ | p
   · simp only [fcLen] at hbig
     wps
